@@ -19,6 +19,13 @@ const long CROSS = 1L << 20;       // reader option bit: read whatever document 
 const long RISKY = 1L << 21;
 const long NATURAL = 1L << 22;     // reader option bit: take separator / header / delimiter options from the way the document was written       // reader option bit: also make the follow-up call that a known defect lives in (rate-limited by the generator)
 
+// Detector for an indeterminate result of TextTools::fromString<T>("") (repaired: fixes/01): the same call is made twice over
+// differently painted stack memory; a pure conversion must give the same value both times.  Sound by construction: when the
+// compiler happens to place the temporary elsewhere, both calls agree and nothing is reported.
+__attribute__((noinline)) inline void paintStack(unsigned v) { volatile unsigned a[1536]; for (int i = 0; i < 1536; ++i) a[i] = v; }
+template <class T> __attribute__((noinline)) T convertEmpty() { return bpp::TextTools::fromString<T>(std::string()); }
+template <class T> __attribute__((noinline)) T toEmpty() { return bpp::TextTools::to<T>(std::string()); }
+
 class Exec {
   const Plan& p; Ctx& ctx; bool cmp;
   std::vector<Doc> docs;
@@ -54,9 +61,8 @@ public:
     }
     return &docs[static_cast<size_t>(a) % docs.size()];
   }
-  // TextTools::fromString<T>/to<T> return an UNINITIALISED value for an empty string (confirmed defect, see report).
-  // Without MemorySanitizer the consequence depends on stack garbage and does not replay, so calls whose input would take
-  // that path are recognised from the input text and skipped (probe hazard:*), never hashed.
+  // TextTools::fromString<T>/to<T> used to return an UNINITIALISED value for an empty string (fixed: fixes/01).  The inputs
+  // that take that path are still recognised from the text, now only to prove that they are reached (probes).
   static bool rangeHazard(const std::string& value) {
     std::string s = value;
     if (s.size() >= 2 && s[0] == '(' && s[s.size() - 1] == ')') s = s.substr(1, s.size() - 2);
@@ -355,8 +361,16 @@ public:
     ctx.ev("resolved=" + std::to_string(h));
     done(g);
   }
+  void checkEmptyConversion() {
+    paintStack(0x11111111u); int a = convertEmpty<int>(); paintStack(0x22222222u); int b = convertEmpty<int>();
+    paintStack(0x11111111u); unsigned c = toEmpty<unsigned int>(); paintStack(0x22222222u); unsigned d = toEmpty<unsigned int>();
+    ctx.probe("reach:TextTools::fromString-empty");
+    if (a != b) ctx.fail("invariant:indeterminate-conversion", "invariant:indeterminate-conversion:TextTools::fromString", "fromString<int>(\"\") returned two different values for the same (empty) input");
+    if (c != d) ctx.fail("invariant:indeterminate-conversion", "invariant:indeterminate-conversion:TextTools::to", "to<unsigned int>(\"\") returned two different values for the same (empty) input");
+  }
   void rQuery(const Op& o) {
     if (!haveMap) { ctx.outcome("skip"); return; }
+    checkEmptyConversion();
     using bpp::ApplicationTools;
     long idx = 0; int raised = 0; uint64_t acc = 3;
     std::string suffix = (o.b & 1) ? "_sfx" : ""; bool sOpt = o.b & 2; int warn = (o.b & 4) ? 1 : 0;
@@ -370,7 +384,7 @@ public:
       std::string pat1 = itv == lastMap.end() ? std::string("*") : itv->second.substr(0, 6) + "*";
       std::string pat2 = "*" + key.substr(key.size() / 2);
       std::string pat3 = key.empty() ? std::string("*") : key.substr(0, 1) + "*" + key.substr(key.size() - 1);
-      if (type == 10) { auto hv = lastMap.find(key + suffix); if (hv == lastMap.end() || bpp::TextTools::isEmpty(hv->second)) hv = lastMap.find(key); if (hv != lastMap.end() && rangeHazard(hv->second)) { ctx.probe("hazard:range-with-empty-bound"); continue; } }
+      if (type == 10) { auto hv = lastMap.find(key + suffix); if (hv == lastMap.end() || bpp::TextTools::isEmpty(hv->second)) hv = lastMap.find(key); if (hv != lastMap.end() && rangeHazard(hv->second)) ctx.probe("range-with-empty-bound"); }
       raised += guard(rd, [&] {
         switch (type) {
           case 0: acc ^= strHash(hexfloat(ApplicationTools::getDoubleParameter(key, lastMap, 1.5, suffix, sOpt, warn))); break;
@@ -415,15 +429,19 @@ public:
   }
 
   // ------------------------------------------------------------ distributions
-  double distTol(const Doc& d, double x) const { double t = 2e-5 * (1 + std::abs(x)); if (d.distFree) t += 2 * std::pow(10.0, -d.distPrec); return t; }
+  // Simple and Constant involve no numerical inversion: exact up to parsing (Simple is written with 15 decimals; a Constant value
+  // with the stream precision); every other family goes through quantile inversion (calibrated bound, see info().tolerances)
+  double distTol(const Doc& d, double x) const {
+    if (d.distFamily == "Simple") return 1e-9 * (1 + std::abs(x));
+    if (d.distFamily == "Constant") return 1e-9 * (1 + std::abs(x)) + (d.distFree ? 2 * std::pow(10.0, -d.distPrec) : 0);
+    return 2e-5 * (1 + std::abs(x));
+  }
   void rDist(const Op& o) {
     Doc* d = pick(o.a, K_DIST, o.b); if (!d) { ctx.outcome("skip"); return; }
     std::string desc; if (!firstLine(*d, 0, o.c, static_cast<uint64_t>(o.d), desc)) { done(1); return; }
-    if (emptyArgHazard(desc)) { ctx.probe("hazard:distribution-argument-empty"); ctx.outcome("skip"); return; }
+    if (emptyArgHazard(desc)) ctx.probe("distribution-argument-empty");
     bool parseArgs = !(o.b & 1), verbose = o.b & 2;
-    // parseArguments=true re-initialises a Simple distribution through 6-significant-digit text (confirmed defect): in the
-    // comparing harness a top-level Simple is read with parseArguments=false unless the plan allows that trigger (allow bit 8)
-    if (cmp) parseArgs = !(d->kind == K_DIST && d->distFamily == "Simple" && !(d->distAllow & 8));
+    if (cmp) parseArgs = true;
     std::unique_ptr<bpp::DiscreteDistributionInterface> r;
     bpp::BppODiscreteDistributionFormat fmt(verbose);
     int g = guard("BppODiscreteDistributionFormat::readDiscreteDistribution", [&] { r = fmt.readDiscreteDistribution(desc, parseArgs); });
@@ -437,7 +455,7 @@ public:
       });
     }
     if (cmp && d->kind == K_DIST && d->pristine()) {
-      std::string fam = d->distFamily + (d->distFree ? ":free-values" : "") + ((d->distAllow & 1) ? ":TruncExponential-allowed" : "") + ((d->distAllow & 2) ? ":Uniform-allowed" : "") + ((d->distAllow & 4) ? ":invariant-value-0" : "") + ((d->distAllow & 8) ? ":Simple-reparsed" : "");
+      std::string fam = d->distFamily + (d->distFree ? ":free-values" : "") + ((d->distAllow & 4) ? ":invariant-value-set" : "");
       rt(g == 0 && r, "dist", "raised:" + fam, "readDiscreteDistribution raised on its own writer's output (stream precision " + std::to_string(d->distPrec) + "): " + printable(desc));
       rt(r->getName() == d->dist->getName(), "dist", "family:" + fam, "wrote " + d->dist->getName() + " read " + r->getName() + ": " + printable(desc));
       size_t n = d->dist->getNumberOfCategories();
@@ -579,8 +597,7 @@ public:
       size_t take = n == 0 ? 0 : static_cast<size_t>(o.d) % (n + 1);
       for (size_t i = 0; i < take; ++i) st.nextToken();
       if (o.b & 64) st.removeEmptyTokens();
-      // unparseRemainingTokens on an empty token list is a confirmed defect (see known findings): only asked for when the plan says so
-      if (st.getTokens().size() > 0 || (o.b & RISKY)) { if (guard("StringTokenizer::unparseRemainingTokens", [&] { un = st.unparseRemainingTokens(); }) != 0) throw bpp::Exception("unparse raised"); }
+      { if (guard("StringTokenizer::unparseRemainingTokens", [&] { un = st.unparseRemainingTokens(); }) != 0) throw bpp::Exception("unparse raised"); }
       while (st.hasMoreToken()) st.nextToken();
       if (o.b & 128) st.nextToken();
     });
